@@ -250,7 +250,9 @@ def gen_injected(rng, counter):
         kind = KINDS[counter[0] % len(KINDS)]
         where = ["first", "last", "inner"][(counter[0] // len(KINDS)) % 3]
         counter[0] += 1
-        sys = inject(rng, sys0, f, kind, where, switch=0)
+        k1 = rng.choice([1, 2])       # 1: the formula raises an Exception; 2: a BaseException (rules.HarnessAbort)
+        k2 = 3 - k1
+        sys = inject(rng, sys0, f, kind, where, switch=k1)
         sys["max_loops"] = rng.choice([1, 1, 2, 3])
         nv0 = len(sys0["vars"])
         # third way of removing the cause: the variable's class is corrected on the live tax-benefit system
@@ -258,11 +260,11 @@ def gen_injected(rng, counter):
         others = lambda k: [gen_calc_request(rng, sys0, rng.randrange(nv0), year) for _ in range(k)]  # noqa: E731
         reqs = list(sets)
         if kind in ("raise", "raise2"):
-            on = [0]
+            on = [k1]
             if kind == "raise2":
                 g = rng.choice(cone)
-                sys = inject(rng, sys, g, "raise", rng.choice(["first", "last", "inner"]), switch=1)
-                on = [0, 1]
+                sys = inject(rng, sys, g, "raise", rng.choice(["first", "last", "inner"]), switch=k2)
+                on = [k1, k2]
             if rng.random() < 0.5:
                 sys["switches"] = list(on)
             else:
@@ -277,7 +279,7 @@ def gen_injected(rng, counter):
             else:
                 if rng.random() < 0.3:
                     reqs += [target]                                   # fails twice in a row
-                reqs += [swap if rng.random() < 0.3 else ["switch", 0, False], target]
+                reqs += [swap if rng.random() < 0.3 else ["switch", k1, False], target]
             again = [r for r in first if r != target]
             reqs += rng.sample(again, min(len(again), 2)) + others(rng.randint(0, 2))
         else:
@@ -378,6 +380,45 @@ def gen_long_cycle(rng):
             "fixvals": [rng.randint(-9, 30) for _ in range(6)]}
 
 
+def gen_eternal_spiral(rng):
+    """amount@p -> reference (ETERNITY, formula) -> amount@p-1: the eternal variable sits between the two
+    occurrences of the spiralling variable and is marked for purge; the top-level formula then fails (or not)."""
+    unit = rng.choice(["year", "year", "month"])
+    ent = rng.choice(["person", "person", "group"])
+    y = rng.choice([2018, 2019, 2020])
+    mo = 1 if unit == "year" else rng.randint(3, 12)
+    per = lambda j: ["year", [y - j, 1, 1], 1] if unit == "year" else ["month", [y, mo - j, 1], 1]  # noqa: E731
+    k = rng.choice([1, 2])
+    var = lambda u, formulas, ty="int": {"ent": ent, "type": ty, "unit": u, "end": None,  # noqa: E731
+                                         "formulas": [[[1, 1, 1], e] for e in formulas],
+                                         "default": rng.choice([0, 1, 3]), "neutral": False}
+    back = rng.choice([["offset", -1], "last_year" if unit == "year" else "last_month"])
+    fail = ["raise", k] if rng.random() < 0.8 else ["dep", 11, "same", "plain"]
+    top = ["bin", "add", ["dep", 2, "same", "plain"], fail] if rng.random() < 0.8 else \
+          ["bin", "add", fail, ["dep", 2, "same", "plain"]]
+    vs = [var(unit, []),                                                                   # 0 dated input
+          var("eternity", []),                                                             # 1 eternal input
+          var(unit, [["bin", "add", ["dep", 3, "same", "plain"], ["dep", 0, "same", "plain"]]]),      # 2 amount
+          var("eternity", [["bin", "add", ["dep", 2, back, "plain"], ["dep", 1, "same", "plain"]]],
+              rng.choice(["int", "float"])),                                               # 3 reference
+          var(unit, [top]),                                                                # 4 ratio (fails)
+          var(unit, [["bin", "add", ["dep", 3, "same", "plain"], ["const", rng.randint(1, 4)]]]),     # 5 reads 3
+          var("eternity", [["bin", "mul", ["const", 2], ["dep", 3, "same", "plain"]]])]     # 6 eternal on eternal
+    sys = {"vars": vs, "params": [], "switches": [k], "max_loops": rng.choice([1, 1, 2, 3])}
+    pop = rules.gen_pop(rng, 4)
+    n = rules.count_for(pop, vs[0])
+    vals = lambda: [rng.randint(-20, 100) for _ in range(n)]  # noqa: E731
+    reqs = [["set", 0, per(j), vals()] for j in range(3) if rng.random() < 0.8]
+    if rng.random() < 0.7:
+        reqs.append(["set", 1, rng.choice([list(rules.ETERNITY), per(0)]), vals()])
+    some = lambda c: [["calc", rng.choice([2, 3, 5, 6, 4]), per(rng.choice([0, 0, 1]))] for _ in range(c)]  # noqa: E731
+    reqs += some(rng.randint(0, 1)) + [["calc", 4, per(0)]] + some(rng.randint(1, 3))
+    reqs += [["switch", k, False], ["calc", 4, per(0)]] + some(rng.randint(0, 2))
+    return {"sys": sys, "pop": pop, "cfg": {"trace": rng.random() < 0.5}, "requests": reqs, "mode": "stack",
+            "inject": {"var": None, "kind": "eternal-in-spiral", "where": None, "target": ["calc", 4, per(0)]},
+            "fixvals": []}
+
+
 def generate(rng, tier):
     n_full, n_spiral = {"quick": (420, 60), "escalated": (1500, 200), "thorough": (3600, 400)}[tier]
     cases, counter = [], [rng.randrange(len(KINDS) * 3)]
@@ -388,6 +429,8 @@ def generate(rng, tier):
         cases.append(gen_spiral(rng))
     for _ in range(n_spiral):
         cases.append(gen_long_cycle(rng))
+    for _ in range(n_spiral // 2):
+        cases.append(gen_eternal_spiral(rng))
     return cases
 
 
@@ -409,6 +452,7 @@ class Runner:
         self.inprogress = []      # calls of Simulation.calculate in progress (harness-side)
         self.fired = None         # calls in progress when an exception first passed, + its kind
         self.reentered = None     # a (variable, period) requested while it was being computed
+        self.tainted = []         # (variable, period) marked for purge during the last top-level calculation
         if probe:
             self._wrap()
 
@@ -416,12 +460,14 @@ class Runner:
         original = self.sim.calculate        # bound method of the real class
 
         def calculate(variable_name, period):
+            if not self.inprogress:
+                self.tainted = []            # taints of the top-level calculation now starting
             if self.reentered is None and any(n == variable_name and p == period for n, p in self.inprogress):
                 self.reentered = frame_json(variable_name, period)
             self.inprogress.append((variable_name, period))
             try:
                 return original(variable_name, period)
-            except Exception as e:  # noqa: BLE001
+            except BaseException as e:  # noqa: BLE001 - rules.HarnessAbort is not an Exception
                 if self.fired is None:
                     self.fired = (list(self.inprogress), errkind(e))
                 raise
@@ -429,6 +475,13 @@ class Runner:
                 self.inprogress.pop()
 
         self.sim.calculate = calculate       # population(...) and calculate_add/divide go through self.calculate
+        taint = self.sim.invalidate_cache_entry
+
+        def invalidate_cache_entry(variable, period):
+            self.tainted.append((variable, period))
+            return taint(variable, period)
+
+        self.sim.invalidate_cache_entry = invalidate_cache_entry
 
     def replace(self, f, formulas, how):
         """TaxBenefitSystem.replace_variable / update_variable under the live simulation: a new class for
@@ -453,6 +506,7 @@ class Runner:
     def do(self, r):
         self.fired = None
         self.reentered = None
+        self.tainted = []
         try:
             if r[0] == "replace":
                 self.replace(r[1], r[2], r[3])
@@ -547,7 +601,12 @@ def _run(case):
             tracer = main.sim.tracer
             cursor_ok = getattr(tracer, "_current_node", None) is None
             steps.append([a, len(tracer.stack), after])
-            state.append([cursor_ok, len(main.sim.invalidated_caches), len(main.inprogress), main.reentered])
+            tainted = []
+            for n, p in main.tainted:
+                tk = frame_key(sys, n, p)
+                if tk is not None and tk not in tainted:
+                    tainted.append(tk)
+            state.append([cursor_ok, len(main.sim.invalidated_caches), len(main.inprogress), main.reentered, tainted])
             if main.fired is not None:
                 frames, kind = main.fired
                 fired.append({"kind": kind, "frames": [frame_json(n, p) for n, p in frames],
@@ -643,7 +702,7 @@ def oracle(case, obs):
     prev_cache = []
     for k, (r, (a, depth, cache)) in enumerate(zip(reqs, steps)):
         fired = obs["fired"][k]
-        cursor_ok, n_invalid, n_inprogress, reentered = obs["state"][k]
+        cursor_ok, n_invalid, n_inprogress, reentered, tainted = obs["state"][k]
         what = f"request {k} {json.dumps(r)}"
         # (f) stack, trace cursor, tainted set
         if depth != 0:
@@ -652,6 +711,11 @@ def oracle(case, obs):
             return f"cursor: FullTracer._current_node is not None after {what}"
         if n_invalid != 0:
             return f"purge: {n_invalid} invalidated cache entries left after {what}"
+        # a value derived from a computation cut short by a spiral is provisional: none may stay recorded once the
+        # top-level calculation that marked it has ended
+        for tk in tainted:
+            if any(e[0] == tk for e in cache):
+                return f"tainted: entry {tk} was marked for purge during {what} and is still recorded afterwards"
         # (a) the error reaches the caller
         if fired is not None:
             if not isinstance(a, Err):
